@@ -31,7 +31,7 @@ HARDENING = [
 def run(chk: Check) -> None:
     from .. import seeds
 
-    vectors = [v for v in progspace.enumerate_vectors(chk) if v["mult"] == 1 and v["imp"] == "asis"]
+    vectors = [v for v in progspace.enumerate_vectors(chk) if v["mult"] == 1 and v["imp"] == "asis" and v["layout"] != "bom"]
     scenarios = progspace.build_batches(chk, codemods=set(HARDENING), vectors=vectors, seeds_per_codemod=chk.pick(4, 14), vectors_per_seed=chk.pick(5, 30))
     by_key = {s.key: s for s in seeds.load()}
     for scn in scenarios:
